@@ -7,6 +7,7 @@ import (
 	"fmt"
 	"go/token"
 	"go/types"
+	"strings"
 
 	"golang.org/x/tools/go/ssa"
 )
@@ -184,6 +185,128 @@ func init() {
 	intrinsics["time.Time.Format"] = freshStr
 	intrinsics["time.Time.String"] = freshStr
 	intrinsics["time.Duration.String"] = freshStr
+	// ---- sync/atomic typed values: sequential semantics on the value field --------
+	// (shared fields that other goroutines may write are declared `volatile` in the
+	// contract of the function under verification and then read as arbitrary values)
+	atomicField := func(e *Engine, st *State, recv SV, pos token.Pos) (*PtrSV, types.Type) {
+		p, ok := recv.(*PtrSV)
+		if !ok {
+			if sc, ok2 := recv.(*Sc); ok2 {
+				panic(engErr("atomic method on opaque pointer " + sc.T))
+			}
+			panic(engErr("atomic method on non-pointer"))
+		}
+		_, _ = p, pos
+		tt, _ := e.typeAtPath(p.Root, p.Path)
+		stt, ok := tt.Underlying().(*types.Struct)
+		if !ok {
+			panic(engErr("atomic receiver is not a struct: " + tt.String()))
+		}
+		for i := 0; i < stt.NumFields(); i++ {
+			if stt.Field(i).Name() == "v" {
+				np := *p
+				np.Path = append(append([]pathEl(nil), p.Path...), pathEl{field: i})
+				return &np, stt.Field(i).Type()
+			}
+		}
+		panic(engErr("atomic type without value field: " + tt.String()))
+	}
+	atomicNote := func(e *Engine) {
+		e.vc.usedExt["sync/atomic typed values read and written with sequential semantics (fields declared volatile are read as arbitrary values)"] = true
+	}
+	atomicLoad := func(e *Engine, fr *Frame, st *State, fn *ssa.Function, args []SV, resT types.Type, pos token.Pos) SV {
+		atomicNote(e)
+		fp, ft := atomicField(e, st, args[0], pos)
+		if e.isVolatile(fp) {
+			return e.freshSV(resT, "vol", st.pc, st)
+		}
+		v := e.load(fr, st, fp, ft, "atomic load")
+		return e.atomicConv(v, ft, resT)
+	}
+	atomicStore := func(e *Engine, fr *Frame, st *State, fn *ssa.Function, args []SV, resT types.Type, pos token.Pos) SV {
+		atomicNote(e)
+		fp, ft := atomicField(e, st, args[0], pos)
+		e.store(fr, st, fp, ft, e.atomicConvBack(args[1], ft, isBoolRecv(fn)), "atomic store")
+		return nil
+	}
+	atomicAdd := func(e *Engine, fr *Frame, st *State, fn *ssa.Function, args []SV, resT types.Type, pos token.Pos) SV {
+		atomicNote(e)
+		fp, ft := atomicField(e, st, args[0], pos)
+		var cur SV
+		if e.isVolatile(fp) {
+			cur = e.freshSV(ft, "vol", st.pc, st)
+		} else {
+			cur = e.load(fr, st, fp, ft, "atomic add")
+		}
+		w, sg, _ := intInfo(ft)
+		saved := e.ar.wrapSigned
+		e.ar.wrapSigned = true // atomic adds wrap
+		t, err := e.ar.BinOp(token.ADD, cur.(*Sc).T, args[1].(*Sc).T, w, sg)
+		e.ar.wrapSigned = saved
+		if err != nil {
+			panic(engErr(err.Error()))
+		}
+		nv := &Sc{e.vc.define("aadd", e.ar.intSort(w), t)}
+		e.store(fr, st, fp, ft, nv, "atomic add")
+		return nv
+	}
+	atomicSwap := func(e *Engine, fr *Frame, st *State, fn *ssa.Function, args []SV, resT types.Type, pos token.Pos) SV {
+		atomicNote(e)
+		fp, ft := atomicField(e, st, args[0], pos)
+		var cur SV
+		if e.isVolatile(fp) {
+			cur = e.freshSV(ft, "vol", st.pc, st)
+		} else {
+			cur = e.load(fr, st, fp, ft, "atomic swap")
+		}
+		e.store(fr, st, fp, ft, e.atomicConvBack(args[1], ft, isBoolRecv(fn)), "atomic swap")
+		return e.atomicConv(cur, ft, resT)
+	}
+	atomicCAS := func(e *Engine, fr *Frame, st *State, fn *ssa.Function, args []SV, resT types.Type, pos token.Pos) SV {
+		atomicNote(e)
+		fp, ft := atomicField(e, st, args[0], pos)
+		var cur SV
+		if e.isVolatile(fp) {
+			cur = e.freshSV(ft, "vol", st.pc, st)
+		} else {
+			cur = e.load(fr, st, fp, ft, "atomic cas")
+		}
+		old := e.atomicConvBack(args[1], ft, isBoolRecv(fn))
+		nw := e.atomicConvBack(args[2], ft, isBoolRecv(fn))
+		lc := e.flatten(ft, cur)
+		lo := e.flatten(ft, old)
+		eq := "true"
+		for i := range lc {
+			eq = and(eq, fmt.Sprintf("(= %s %s)", lc[i], lo[i]))
+		}
+		eq = e.vc.define("cas", "Bool", eq)
+		e.store(fr, st, fp, ft, e.mergeSV(ft, eq, nw, cur, "casv"), "atomic cas")
+		return &Sc{eq}
+	}
+	for _, tn := range []string{"Int32", "Int64", "Uint32", "Uint64", "Bool", "Uintptr"} {
+		intrinsics["sync/atomic."+tn+".Load"] = atomicLoad
+		intrinsics["sync/atomic."+tn+".Store"] = atomicStore
+		intrinsics["sync/atomic."+tn+".Swap"] = atomicSwap
+		intrinsics["sync/atomic."+tn+".CompareAndSwap"] = atomicCAS
+		if tn != "Bool" {
+			intrinsics["sync/atomic."+tn+".Add"] = atomicAdd
+		}
+	}
+	intrinsics["sync/atomic.Pointer.Load"] = func(e *Engine, fr *Frame, st *State, fn *ssa.Function, args []SV, resT types.Type, pos token.Pos) SV {
+		atomicNote(e)
+		fp, ft := atomicField(e, st, args[0], pos)
+		if e.isVolatile(fp) {
+			return e.freshSV(resT, "vol", st.pc, st)
+		}
+		v := e.load(fr, st, fp, ft, "atomic pointer load") // unsafe.Pointer ref
+		return e.unflat(resT, e.flatten(ft, v))
+	}
+	intrinsics["sync/atomic.Pointer.Store"] = func(e *Engine, fr *Frame, st *State, fn *ssa.Function, args []SV, resT types.Type, pos token.Pos) SV {
+		atomicNote(e)
+		fp, ft := atomicField(e, st, args[0], pos)
+		e.store(fr, st, fp, ft, &Sc{e.ptrTerm(args[1])}, "atomic pointer store")
+		return nil
+	}
 	intrinsicPrefixes = map[string]intrinsic{
 		logPkg: noop,
 	}
@@ -194,4 +317,8 @@ func init() {
 			return &Sc{e.vc.declare("errstr", "Int")}
 		},
 	}
+}
+
+func isBoolRecv(fn *ssa.Function) bool {
+	return fn != nil && strings.HasPrefix(funcKey(fn), "sync/atomic.Bool.")
 }
